@@ -43,6 +43,16 @@
 (* beyond the STH of the pass towards an explicit end_index (or to the end  *)
 (* of a batch): the run goes on, and if the source serves such an entry and *)
 (* it is submitted, invariant Bounded reports it by name.                   *)
+(*                                                                         *)
+(* Signer lag (Reset carries lag: the schedule of the harness's signer;     *)
+(* Integrate events say when the root really moved).  A fifth defect step,  *)
+(* RewindRange, explains a get-entries request of a later round of a run    *)
+(* that starts below the position the previous round reached (a migrator    *)
+(* that takes the lagging root for its position); it is enabled only when   *)
+(* such a request lies ahead in the pass, and taking it raises the flag:    *)
+(* invariant NoRepeat reports it by name.  NoRepeat also convicts *)
+(* any Add answered OK that carries an index already submitted in this run  *)
+(* (ghost subm of Migrillian.tla).                                          *)
 (***************************************************************************)
 EXTENDS Migrillian, Json, IOUtils
 
@@ -59,10 +69,10 @@ SeqToSet(s) == {s[i] : i \in DOMAIN s}
 CfgOf(j) == [src0 |-> j.src0, growth |-> j.growth, ahead |-> j.ahead, end |-> j.end, bad |-> SeqToSet(j.bad), destLen |-> j.destLen, destInt |-> j.destInt,
              batch |-> j.batch, fetchers |-> j.fetchers, submitters |-> j.submitters, cont |-> j.cont, stop |-> FALSE,
              start |-> j.start, forked |-> j.forked, forkAt |-> j.forkAt,
-             mode |-> IF j.mode = "run" THEN "run" ELSE "master", faults |-> 1000, restarts |-> 1000]
+             mode |-> IF j.mode = "run" THEN "run" ELSE "master", faults |-> 1000, restarts |-> 1000, lag |-> j.lag]
 
 Blank == [src0 |-> 0, growth |-> 0, ahead |-> 0, end |-> 0, bad |-> {}, destLen |-> 0, destInt |-> 0, batch |-> 1, fetchers |-> 1, submitters |-> 1,
-          cont |-> FALSE, stop |-> FALSE, start |-> 0, forked |-> FALSE, forkAt |-> 0, mode |-> "run", faults |-> 0, restarts |-> 0]
+          cont |-> FALSE, stop |-> FALSE, start |-> 0, forked |-> FALSE, forkAt |-> 0, mode |-> "run", faults |-> 0, restarts |-> 0, lag |-> 0]
 
 TraceInit == InitWith(Blank) /\ l = 1 /\ TLCSet(1, 1)
 
@@ -74,7 +84,7 @@ TReset ==
      /\ destSize' = c.destInt
      /\ pc' = "start" /\ why' = "" /\ result' = "" /\ pos' = 0 /\ root' = 0 /\ sth' = -1 /\ proved' = FALSE /\ gen' = 0
      /\ out' = {} /\ bag' = {} /\ hold' = {} /\ master' = TRUE /\ alive' = TRUE
-     /\ faults' = c.faults /\ restarts' = c.restarts /\ verified' = c.destLen /\ flags' = {}
+     /\ faults' = c.faults /\ restarts' = c.restarts /\ verified' = c.destLen /\ subm' = {} /\ flags' = {}
      /\ UNCHANGED <<pass, calls, hist>>
 
 \* a suspicion recorded by AbortOnQuota becomes a fact when the pass is indeed over
@@ -89,7 +99,7 @@ TGetRoot ==
        ELSE /\ pc' = "unwind" /\ why' = "err" /\ root' = 0 /\ sth' = -1 /\ proved' = FALSE
   \* a new pass begins with Run's position `pos`: Run will never look below it again
   /\ flags' = Convict(flags) \cup (IF PosCovered THEN {} ELSE {"gap"})
-  /\ UNCHANGED <<cfg, dest, pipe, envv, restarts, verified, result, pos, gen, faults, pass, calls, hist>>
+  /\ UNCHANGED <<cfg, dest, pipe, envv, restarts, verified, subm, result, pos, gen, faults, pass, calls, hist>>
 
 TSTH ==
   /\ Ev("STH") /\ Step
@@ -106,14 +116,14 @@ TCons ==
             /\ \/ Verify /\ (pc' = "run") = E.valid
                \/ /\ ~E.valid                       \* defect: going on although the proof did not verify
                   /\ pc' = "run" /\ gen' = FirstIndex /\ UNCHANGED <<why, result, pos, root, sth, proved, verified, flags>>
-                  /\ UNCHANGED <<cfg, dest, pipe, envv, restarts, faults, pass, calls, hist>>
+                  /\ UNCHANGED <<cfg, dest, pipe, envv, restarts, faults, pass, calls, hist, subm>>
        ELSE Verify /\ pc' = "unwind"
 
 \* defect: leaving the gate without asking for a proof
 SkipGate ==
   /\ pc = "verify" /\ root > 0
   /\ pc' = "run" /\ gen' = FirstIndex
-  /\ UNCHANGED <<cfg, dest, pipe, envv, restarts, faults, pass, calls, hist, why, result, pos, root, sth, proved, verified, flags, l>>
+  /\ UNCHANGED <<cfg, dest, pipe, envv, restarts, faults, pass, calls, hist, why, result, pos, root, sth, proved, verified, subm, flags, l>>
 
 TFetch ==
   /\ Ev("Fetch") /\ Step
@@ -140,7 +150,7 @@ TAdd ==
           \/ /\ pc = "unwind" /\ E.code # "OK" /\ hold' = hold \ {h}
              \* a genuine failure seen while unwinding: whatever was suspected, this may have ended the pass
              /\ flags' = IF E.code = "ResourceExhausted" THEN flags ELSE flags \ {"quotaSuspect"}
-             /\ UNCHANGED <<cfg, dest, out, bag, envv, faults, restarts, verified, pass, calls, hist, ctl>>
+             /\ UNCHANGED <<cfg, dest, out, bag, envv, faults, restarts, verified, subm, pass, calls, hist, ctl>>
 
 \* a control call (GetRoot / get-sth / get-sth-consistency) that was already on its way when the pass was
 \* cancelled is still answered; the Controller discards the answer
@@ -151,18 +161,18 @@ TStray ==
      \* one-shot: an STH that shows nothing to do ends the pass before the cancellation is noticed: Run returns nil
      \/ /\ Ev("STH") /\ E.code = "OK" /\ E.size <= pos /\ ~cfg.cont /\ why = "cancel"
         /\ pc' = "passDone" /\ why' = "" /\ sth' = E.size
-        /\ UNCHANGED <<cfg, dest, pipe, envv, faults, restarts, verified, flags, pass, calls, hist, result, pos, root, proved, gen>>
+        /\ UNCHANGED <<cfg, dest, pipe, envv, faults, restarts, verified, subm, flags, pass, calls, hist, result, pos, root, proved, gen>>
 
 TIntegrate ==
   /\ Ev("Integrate") /\ Step
   /\ destSize < E.size /\ E.size <= Contig
   /\ destSize' = E.size
-  /\ UNCHANGED <<cfg, srcSize, dest, pipe, master, alive, faults, restarts, verified, flags, pass, calls, hist, ctl>>
+  /\ UNCHANGED <<cfg, srcSize, dest, pipe, master, alive, faults, restarts, verified, subm, flags, pass, calls, hist, ctl>>
 
 TGrow ==
   /\ Ev("Grow") /\ Step
   /\ srcSize' = E.size /\ E.size > srcSize /\ E.size <= MaxIdx
-  /\ UNCHANGED <<cfg, dest, destSize, pipe, master, alive, faults, restarts, verified, flags, pass, calls, hist, ctl>>
+  /\ UNCHANGED <<cfg, dest, destSize, pipe, master, alive, faults, restarts, verified, subm, flags, pass, calls, hist, ctl>>
 
 TMaster == Ev("Master") /\ Step /\ IF E.on THEN Regain ELSE Revoke
 TCancel == Ev("Cancel") /\ Step /\ Cancel
@@ -180,7 +190,7 @@ TReturn ==
 AbortOnQuota ==
   /\ pc = "run" /\ why = "" /\ \E h \in hold : h.st = "wait"
   /\ pc' = "unwind" /\ why' = "err" /\ flags' = flags \cup {"quotaSuspect"}
-  /\ UNCHANGED <<cfg, dest, pipe, envv, restarts, faults, pass, calls, hist, result, pos, root, sth, proved, gen, verified, l>>
+  /\ UNCHANGED <<cfg, dest, pipe, envv, restarts, faults, pass, calls, hist, result, pos, root, sth, proved, gen, verified, subm, l>>
 
 \* defect: the pass is taken for finished although fetch workers still hold ranges (or the remainders of ranges after a
 \* short read or an empty page): the rest is given up.  PassDone then advances the position past the hole; the hole is
@@ -190,7 +200,7 @@ AbandonRanges ==
   /\ pc = "run" /\ why = "" /\ gen >= Hi /\ out # {} /\ hold = {} /\ \A b \in bag : b.n = 0
   /\ (root = 0 \/ proved)                    \* not on top of another suspicion (SkipGate, an unverified proof)
   /\ out' = {} /\ bag' = {}
-  /\ UNCHANGED <<cfg, dest, hold, envv, restarts, faults, pass, calls, hist, ctl, verified, flags, l>>
+  /\ UNCHANGED <<cfg, dest, hold, envv, restarts, faults, pass, calls, hist, ctl, verified, subm, flags, l>>
 
 \* defect: the range generator hands out a range that reaches beyond the end of the pass's range - up to an explicit
 \* end_index beyond the STH, or to the end of a full batch - as if the STH did not bound the job
@@ -201,13 +211,29 @@ OverrunRange ==
        /\ e >= Hi /\ e >= gen
        /\ out' = out \cup {[s |-> gen, e |-> e]}
        /\ gen' = e + 1
-  /\ UNCHANGED <<cfg, dest, bag, hold, envv, faults, restarts, verified, flags, pass, calls, hist,
+  /\ UNCHANGED <<cfg, dest, bag, hold, envv, faults, restarts, verified, subm, flags, pass, calls, hist,
+                 pc, why, result, pos, root, sth, proved, l>>
+
+\* defect: a later round of a run starts below the position the previous round reached (the lagging root taken for the
+\* position).  The evidence is in the trace: a get-entries request of this pass (before the next root request / return)
+\* that starts below pos - no range handed out from FirstIndex on can explain it, whichever worker's request is recorded
+\* first.  The entries it asks for were delivered in an earlier round of this run: a repeat, reported by name (NoRepeat).
+PassEnds(k) == Trace[k].ev \in {"GetRoot", "Reset", "Return", "Restart"}
+LowFetchAhead == \E k \in l..Min(Len(Trace), l + 80) :
+                   /\ Trace[k].ev = "Fetch" /\ Trace[k].start < pos
+                   /\ \A j \in l..(k - 1) : ~PassEnds(j)
+RewindRange ==
+  /\ pc = "run" /\ pos > 0 /\ gen = FirstIndex /\ out = {} /\ bag = {} /\ hold = {}
+  /\ LowFetchAhead
+  /\ \E g \in 0..(gen - 1) : gen' = g
+  /\ flags' = flags \cup {"repeat"}
+  /\ UNCHANGED <<cfg, dest, pipe, envv, faults, restarts, verified, subm, pass, calls, hist,
                  pc, why, result, pos, root, sth, proved, l>>
 
 \* permitted: an empty batch is dropped instead of being submitted (the range is still held and asked again)
 SkipEmpty ==
   /\ pc = "run" /\ \E b \in bag : b.n = 0 /\ bag' = bag \ {b}
-  /\ UNCHANGED <<cfg, dest, out, hold, envv, restarts, faults, pass, calls, hist, ctl, verified, flags, l>>
+  /\ UNCHANGED <<cfg, dest, out, hold, envv, restarts, faults, pass, calls, hist, ctl, verified, subm, flags, l>>
 
 \* no pass was reported successful with a hole below the position it handed to the next pass
 NoGap == "gap" \notin flags
@@ -221,10 +247,10 @@ Silent == /\ UNCHANGED l
              \/ (\E h \in hold : Wake(h))
 
 TraceNext == TReset \/ TGetRoot \/ TSTH \/ TCons \/ TStray \/ TFetch \/ TAdd \/ TIntegrate \/ TGrow \/ TMaster \/ TCancel
-             \/ TRestart \/ TReturn \/ Silent \/ SkipGate \/ AbortOnQuota \/ AbandonRanges \/ SkipEmpty \/ OverrunRange
+             \/ TRestart \/ TReturn \/ Silent \/ SkipGate \/ AbortOnQuota \/ AbandonRanges \/ SkipEmpty \/ OverrunRange \/ RewindRange
 
 TraceView == <<cfg, srcSize, dest, destSize, pc, why, result, pos, root, sth, proved, gen, out, bag, hold,
-               master, alive, verified, flags, l>>
+               master, alive, verified, subm, flags, l>>
 
 HighWater == TLCSet(1, IF TLCGet(1) < l THEN l ELSE TLCGet(1))
 
